@@ -40,7 +40,17 @@ def build_async():
     return _abuilt["ok"]
 
 
+_cache = {}
+
+
 def run_routine(routine, args=(), timeout=300):
+    key = (routine, tuple(args))
+    if key not in _cache:
+        _cache[key] = _run_routine(routine, args, timeout)
+    return dict(_cache[key])
+
+
+def _run_routine(routine, args=(), timeout=300):
     binary = BIN
     if routine.startswith("async_"):
         if not build_async():
